@@ -18,7 +18,7 @@ use prio::vdaf::test_utils::TestVectorClient;
 use prio::vdaf::xof::XofTurboShake128;
 use pvh::engine::tape::{tape_alphabet, Tape};
 use pvh::engine::{fnv, hex, par, Level, Run};
-use pvh::kit::flpexh::{adversarial_count, vf, SmallCfg, SmallExh};
+use pvh::kit::flpexh::{adversarial_count, vf, ForgedGadget, SmallCfg, SmallExh};
 use pvh::kit::flpkit::{build, Spec, Visit};
 use pvh::kit::ints::{addmod, nth_vector, pow_u64, IntConv, KitField};
 use pvh::kit::prio3spec::{derive, predicted_decision, query_rands, Params, Raw};
@@ -255,8 +255,8 @@ where
             return;
         }
         let full = self.tamper == TamperLevel::Full;
-        for &na in &self.aggs {
-            let np = self.proofs[0];
+        let combos: Vec<(u8, u8)> = self.aggs.iter().flat_map(|a| self.proofs.iter().map(move |p| (*a, *p))).collect();
+        for &(na, np) in &combos {
             let honest: P3<T> = Prio3::new(na, np, alg, t.clone()).unwrap();
             let rawv: P3<Raw<T>> = Prio3::new(na, np, alg, Raw(t.clone())).unwrap();
             let valids = spec.valid_examples();
@@ -519,6 +519,12 @@ fn main() {
         build::<FieldV17, _>(&spec, SmallExh { run: &run, cfg, thin_r: true }).unwrap();
     }
     adversarial_count(&run, !q);
+    // forged gadget polynomials, one gadget at a time, incl. a two-gadget circuit (multi-gadget decide path)
+    build::<FieldV17, _>(&Spec::TwoGadget, ForgedGadget { run: &run, all_inputs: !q }).unwrap();
+    build::<FieldV17, _>(&Spec::Count, ForgedGadget { run: &run, all_inputs: true }).unwrap();
+    build::<FieldV17, _>(&Spec::Sum { max: 2 }, ForgedGadget { run: &run, all_inputs: !q }).unwrap();
+    build::<FieldV17, _>(&Spec::Histogram { len: 2, chunk: 2 }, ForgedGadget { run: &run, all_inputs: !q }).unwrap();
+    build::<FieldV17, _>(&Spec::TwoGadget, SmallExh { run: &run, cfg: c(289, 1, 3, 36), thin_r: true }).unwrap();
     eprintln!("[{:.1}s] layer (a)", run.elapsed());
 
     // ---- (b)+(c) deployed fields
@@ -531,6 +537,12 @@ fn main() {
     build::<Field128, _>(&Spec::Histogram { len: 4, chunk: 3 }, l(vec![2, 3], vec![1, 2], tl, nk)).unwrap();
     build::<Field128, _>(&Spec::Multihot { len: 3, max_weight: 2, chunk: 2 }, l(vec![2], vec![1], tl, nk)).unwrap();
     build::<Field128, _>(&Spec::L1 { max: 3, len: 2, chunk: 3 }, l(vec![2], vec![1], tl, nk)).unwrap();
+    // exactly one joint-randomness element (the whole encoding fits one chunk)
+    build::<Field128, _>(&Spec::Histogram { len: 3, chunk: 4 }, l(vec![2, 3], vec![1, 2], tl, nk)).unwrap();
+    build::<Field128, _>(&Spec::SumVec { max: 3, len: 2, chunk: 8 }, l(vec![3], vec![1], tl, nk)).unwrap();
+    // a two-gadget circuit through Prio3 (multi-gadget decide path)
+    build::<Field128, _>(&Spec::TwoGadget, l(vec![2], vec![1, 2], tl, nk)).unwrap();
+    build::<Field64, _>(&Spec::Deg3 { len: 2 }, l(vec![2], vec![1], TamperLevel::Light, nk)).unwrap();
     if !q {
         build::<Field64, _>(&Spec::Sum { max: 255 }, l(vec![2, 5], vec![1, 3], TamperLevel::Light, nk)).unwrap();
         build::<Field128, _>(&Spec::SumVec { max: 255, len: 4, chunk: 5 }, l(vec![2, 4], vec![1, 2], TamperLevel::Light, nk)).unwrap();
